@@ -50,4 +50,12 @@ NextSel == /\ ~done
                  PrintT(<<"BEH", ToJson([P |-> p, L |-> lim])>>)
            /\ done' = TRUE
 SpecSel == Init /\ [][NextSel]_done
+
+(* the same with a key: densities K in [1..SelN -> 0..SelMaxV], probabilities P = K div 2   *)
+(* (a monotone, not injective image), limits over the attainable sums                     *)
+NextSelKey == /\ ~done
+              /\ \A k \in [1..SelN -> 0..SelMaxV] : \A lim \in 0..(SelN * (SelMaxV \div 2) + 1) :
+                    PrintT(<<"BEH", ToJson([K |-> k, L |-> lim])>>)
+              /\ done' = TRUE
+SpecSelKey == Init /\ [][NextSelKey]_done
 =============================================================================
